@@ -765,7 +765,9 @@ def c15_streams(ctx):
     impl, culprits, fatal = core.run_chunks("wxerr", cases, 1, 1500 if ctx["thorough"] else 400)
     if fatal: s.error = fatal; return [s]
     hung = [(cases.index(c), c, "", f"Watchexec gave no answer on this fault script (stopped processing?): {why}") for c, why in culprits]
-    cases = [c for c in cases if c in impl]
+    hung += [(i, c, impl[c], "Watchexec stopped processing on this fault script: the case did not finish within 8 s (a call that never returns?)") for i, c in enumerate(cases) if impl.get(c, "").endswith(" HUNG")]
+    s.bump("cases skipped after four hangs", sum(1 for c in cases if impl.get(c, "").endswith(" SKIPPED")))
+    cases = [c for c in cases if c in impl and not impl[c].endswith(" HUNG") and not impl[c].endswith(" SKIPPED")]
     outs = [impl[c] for c in cases]
     lines = []
     parsed = []
